@@ -86,8 +86,6 @@ def rule_fd_bound(ctx, cfg, F):
     tr = Tracer(f)
     ffname = strip_generics(ff.path)
     sites = [(b, t) for b, t in f.calls() if strip_generics(callee_name(t)) == ffname]
-    # the descriptor vector: the Vec<i32> local the &[c_int] argument derives from
-    vec_locals = set()
     fd_arg = None
     for i in range(1, ff.argc + 1):
         if ff.local_ty(i) in ("&[i32]",):
@@ -95,49 +93,27 @@ def rule_fd_bound(ctx, cfg, F):
     if fd_arg is None:
         R.violate("anchor-missing:fd-slice-param", "the sendmsg wrapper has no &[c_int] parameter", ff.path, config=cfg)
         return
+    # the descriptor vector: the storage (a local, or a field of a struct local) the &[c_int] argument derives from, closed under moves
+    seeds = set()
     for b, t in sites:
-        for r in tr.roots_of_operand(t["args"][fd_arg]):
-            if r.kind in ("call", "local") and "Vec<i32>" in f.local_ty(_root_local(f, tr, t["args"][fd_arg])):
-                vec_locals.add(_root_local(f, tr, t["args"][fd_arg]))
-    # the vector may travel through moves (a helper returning Result<Vec<c_int>, E> used with `?`): one class of locals
-    vclass = set(vec_locals)
-    changed = True
-    while changed:
-        changed = False
-        for b_ in f.live_blocks():
-            for st_ in f.stmts(b_):
-                if st_["s"] != "assign" or st_["lhs"].get("p") and "Vec<i32>" not in f.local_ty(st_["lhs"]["l"]):
-                    continue
-                if "Vec<i32>" not in f.local_ty(st_["lhs"]["l"]) or f.local_ty(st_["lhs"]["l"]).startswith("&"):
-                    continue
-                srcs = [op_place(o)["l"] for o in st_["rv"].get("a", []) if op_place(o) is not None and "Vec<i32>" in f.local_ty(op_place(o)["l"]) and not f.local_ty(op_place(o)["l"]).startswith("&")]
-                if st_["rv"]["r"] in ("use", "agg", "cast") and srcs:
-                    grp = set(srcs) | {st_["lhs"]["l"]}
-                    if grp & vclass and not grp <= vclass:
-                        vclass |= grp
-                        changed = True
-            t_ = f.term(b_)
-            if t_["t"] == "call" and not t_["dest"].get("p") and "Vec<i32>" in f.local_ty(t_["dest"]["l"]) and not f.local_ty(t_["dest"]["l"]).startswith("&") and \
-                    strip_generics(t_.get("callee") or "") in ("std::ops::Try::branch", "std::convert::From::from", "std::convert::Into::into"):
-                srcs = [op_local(o) for o in t_["args"] if op_local(o) is not None and "Vec<i32>" in f.local_ty(op_local(o))]
-                grp = set(srcs) | {t_["dest"]["l"]}
-                if grp & vclass and not grp <= vclass:
-                    vclass |= grp
-                    changed = True
-    plain = {l for l in vclass if f.local_ty(l).startswith("std::vec::Vec<i32")}
-    if not plain:
-        R.violate("anchor-missing:fd-vector", "descriptor list is not a Vec<c_int> local (%s)" % sorted(vec_locals), f.path, config=cfg)
+        rp = _root_place(f, t["args"][fd_arg])
+        if rp is not None:
+            seeds.add(rp)
+    vplaces = _place_class(f, seeds)
+    vclass = {l for (l, p) in vplaces if not p}
+    if not vplaces:
+        R.violate("anchor-missing:fd-vector", "descriptor list not found (%s)" % sorted(seeds), f.path, config=cfg)
         return
-    V = min(plain)
     ex = Explorer(f)
     worst = {}
+    V = min(vclass) if vclass else None
     loop_blocks = set()
     for h in f.loop_headers():
         loop_blocks |= f.natural_loop(h)
 
     def is_V(operand):
-        l = _root_local(f, tr, operand)
-        return l in vclass
+        rp = _root_place(f, operand)
+        return rp is not None and rp in vplaces
 
     def step(b, st, env):
         lo, hi, snaps = st
@@ -152,7 +128,7 @@ def rule_fd_bound(ctx, cfg, F):
         t = f.term(b)
         if t["t"] == "call":
             name = strip_generics(callee_name(t))
-            if name in ("std::vec::Vec::new", "std::vec::Vec::with_capacity") and t["dest"]["l"] in vclass:
+            if name in ("std::vec::Vec::new", "std::vec::Vec::with_capacity") and (t["dest"]["l"], tuple(e["f"] for e in t["dest"].get("p", []) if isinstance(e, dict) and "f" in e)) in vplaces:
                 lo, hi = 0, 0
             elif name == "std::vec::Vec::push" and is_V(t["args"][0]):
                 if b in loop_blocks:
@@ -206,6 +182,70 @@ def rule_fd_bound(ctx, cfg, F):
         else:
             R.ok("%s transmission carries at most %d descriptors (capacity %d)" % (_site_role(f, b), hi, C), f.loc(b), cfg)
     R.count("first_fragment_sites[%s]" % cfg, len(sites))
+
+
+def _root_place(f, operand, limit=32):
+    """the storage a reference / slice operand ultimately designates, as (base local, field indices): like _root_local, but a vector that lives in a
+    field of a struct (`plan.fds`) is told apart from the struct; follows `&v[..]`, `v.as_slice()`, deref, re-borrows and copies of the reference"""
+    op = operand
+    rp = None
+    for _ in range(limit):
+        rp = ref_place(f, op)
+        if rp is None or rp[1]:
+            return rp
+        l = rp[0]
+        ds = [d for d in f.defs().get(l, []) if not f.is_cleanup(d[0]) and not (d[1] is not None and d[2].get("lhs", {}).get("p"))]
+        if len(ds) != 1 or ds[0][1] is not None:
+            return rp
+        node = ds[0][2]
+        name = strip_generics(callee_name(node))
+        decl = strip_generics(node.get("callee") or "")
+        if decl in ("std::ops::Index::index", "std::ops::Deref::deref", "std::ops::DerefMut::deref_mut", "std::ops::IndexMut::index_mut") or name in ("std::vec::Vec::as_slice", "std::vec::Vec::as_mut_slice"):
+            op = node["args"][0]
+            continue
+        return rp
+    return rp
+
+
+def _place_class(f, seeds):
+    """close a set of places (local, field path) under moves: plain assignments, struct / tuple / Ok(..) literals, `?` and From/Into -- in both directions"""
+    cls = set(seeds)
+    fields = lambda pl: tuple(e["f"] for e in pl.get("p", []) if isinstance(e, dict) and "f" in e)
+
+    def link(a_l, a_path, b_l, b_path):
+        ch = False
+        for (l, p) in list(cls):
+            if l == a_l and p[:len(a_path)] == a_path and (b_l, b_path + p[len(a_path):]) not in cls:
+                cls.add((b_l, b_path + p[len(a_path):]))
+                ch = True
+            if l == b_l and p[:len(b_path)] == b_path and (a_l, a_path + p[len(b_path):]) not in cls:
+                cls.add((a_l, a_path + p[len(b_path):]))
+                ch = True
+        return ch
+    changed = True
+    rounds = 0
+    while changed and rounds < 12:
+        changed = False
+        rounds += 1
+        for b in f.live_blocks():
+            for st in f.stmts(b):
+                if st["s"] != "assign":
+                    continue
+                dl, dp = st["lhs"]["l"], fields(st["lhs"])
+                rv = st["rv"]
+                if rv["r"] in ("use", "cast") and op_place(rv["a"][0]) is not None:
+                    sp = rv["a"][0]["pl"]
+                    changed |= link(sp["l"], fields(sp), dl, dp)
+                elif rv["r"] == "agg":
+                    for i, a in enumerate(rv["a"]):
+                        if op_place(a) is not None:
+                            changed |= link(a["pl"]["l"], fields(a["pl"]), dl, dp + (i,))
+            t = f.term(b)
+            if t["t"] == "call" and t["args"] and op_place(t["args"][0]) is not None and \
+                    strip_generics(t.get("callee") or "") in ("std::ops::Try::branch", "std::ops::FromResidual::from_residual", "std::convert::From::from", "std::convert::Into::into"):
+                sp = t["args"][0]["pl"]
+                changed |= link(sp["l"], fields(sp), t["dest"]["l"], fields(t["dest"]))
+    return cls
 
 
 def _site_role(f, b):
@@ -317,6 +357,64 @@ def _result_paths(f, call_block):
     return path_summaries(f, edge_fact, block_fact, start=t["to"])
 
 
+def _passes_raw_result(f, call_block):
+    """the wrapper hands the system call's own return value to its caller (`Ok(result)` with no test of it): the classification is the caller's business"""
+    tr = Tracer(f)
+    paths = _result_paths(f, call_block)
+    if not paths:
+        return False
+    for facts, rb, path in paths:
+        if any(x[0] == "rel" for x in facts) or {x[1] for x in facts if x[0] == "ret"} != {"Ok"}:
+            return False
+    roots = [r for r in tr.roots(0, (("v", 0, "Ok"), ("f", 0, ""))) if not (r.kind == "call" and r.id.endswith("UnixError::last"))]
+    return bool(roots) and all(r.kind == "call" and r.block == call_block for r in roots)
+
+
+def _caller_result_paths(f, site):
+    """like _result_paths, for the caller of a raw-result wrapper: from the call site to the first Result the caller builds from it (or a return)"""
+    tr = Tracer(f)
+    ex = Explorer(f)
+    out = set()
+
+    def is_res(op):
+        return any(r.kind == "call" and r.block == site for r in tr.roots_of_operand(op))
+
+    def step(b, st, env):
+        facts = set(st)
+        for s_ in f.stmts(b):
+            if s_["s"] == "assign" and s_["rv"]["r"] == "agg" and (s_["rv"]["kind"].get("adt") or "") == "std::result::Result":
+                facts.add(("ret", s_["rv"]["kind"].get("variant")))
+                out.add(frozenset(facts))
+                return None
+        tt = f.term(b)
+        if tt["t"] == "call":
+            nm = strip_generics(callee_name(tt))
+            facts.add(("call", nm))
+            if strip_generics(tt.get("callee") or "").endswith("from_residual") and any(is_res(a) for a in tt["args"]):
+                facts.add(("ret", "Err"))
+                facts.add(("residual",))
+                out.add(frozenset(facts))
+                return None
+        elif tt["t"] == "return":
+            out.add(frozenset(facts))
+            return None
+        return frozenset(facts)
+
+    def edge(b, s, labs, st, env):
+        facts = set(st)
+        for lab in labs:
+            rel = relation_of_label(f, lab)
+            if rel:
+                a, c, rs = rel
+                if is_res(a) and op_const(c) == 0:
+                    facts.add(("rel", tuple(sorted(rs))))
+                elif is_res(c) and op_const(a) == 0:
+                    facts.add(("rel", tuple(sorted({"lt": "gt", "gt": "lt", "eq": "eq"}[x] for x in rs))))
+        return frozenset(facts)
+    ex.walk(f.term(site)["to"], frozenset(), step, edge=edge)
+    return [(fs, None, None) for fs in sorted(out, key=repr)]
+
+
 def rule_send_check(ctx, cfg, F):
     R = ctx.rule("SEND-CHECK", "in each function that calls sendmsg / send the Ok return is reachable only on the edge result > 0, and every other edge returns Err(UnixError::last())")
     n = 0
@@ -330,7 +428,18 @@ def rule_send_check(ctx, cfg, F):
             n += 1
             bad = []
             saw_gt = False
-            for facts, rb, path in _result_paths(f, b):
+            all_paths = None
+            if _passes_raw_result(f, b):
+                # a wrapper split in two by a refactor: it returns the raw result, its caller classifies it -- apply the rule at every call of the wrapper
+                all_paths = []
+                fname = strip_generics(f.path)
+                for g in F.fns.values():
+                    for cb, ct in g.calls():
+                        if strip_generics(callee_name(ct)) == fname:
+                            all_paths += [(fs, None, None) for fs, _x, _y in _caller_result_paths(g, cb) if ("residual",) not in fs]
+                if not all_paths:
+                    bad.append("the raw result of the system call is returned and no caller was found classifying it")
+            for facts, rb, path in (all_paths if all_paths is not None else _result_paths(f, b)):
                 rels = [x[1] for x in facts if x[0] == "rel"]
                 rets = {x[1] for x in facts if x[0] == "ret"}
                 calls = {x[1] for x in facts if x[0] == "call"}
@@ -654,27 +763,39 @@ def rule_retry_shrink(ctx, cfg, F):
     if f is None:
         return
     tr = Tracer(f)
-    # the estimate: a usize local of send that is mutably borrowed (and handed to a crate helper or written through the borrow)
+    # the estimate: a usize variable of send -- a local, or a field of a (context) struct local -- that is mutably borrowed and handed to a crate helper or written through the borrow
+    fpath = lambda pl: tuple(e["f"] for e in pl.get("p", []) if isinstance(e, dict) and "f" in e)
+
+    def place_ty(pl):
+        fs = [e for e in pl.get("p", []) if isinstance(e, dict) and "f" in e]
+        return fs[-1].get("t", "") if fs else f.local_ty(pl["l"])
     cands = set()
     for b in f.live_blocks():
         for st in f.stmts(b):
-            if st["s"] == "assign" and st["rv"]["r"] == "ref" and "Mut" in st["rv"].get("m", "") and not st["rv"]["pl"].get("p") and \
-                    (f.local_ty(st["rv"]["pl"]["l"]) == "usize" or _is_estimate_ref(f, "&mut " + f.local_ty(st["rv"]["pl"]["l"]))):
-                cands.add(st["rv"]["pl"]["l"])
+            if st["s"] == "assign" and st["rv"]["r"] == "ref" and "Mut" in st["rv"].get("m", "") and "*" not in st["rv"]["pl"].get("p", []) and \
+                    (place_ty(st["rv"]["pl"]) == "usize" or (not st["rv"]["pl"].get("p") and _is_estimate_ref(f, "&mut " + f.local_ty(st["rv"]["pl"]["l"])))):
+                cands.add((st["rv"]["pl"]["l"], fpath(st["rv"]["pl"])))
     dcalls = [(b, t) for b, t in f.calls() if t["args"] and op_local(t["args"][0]) is not None and _is_estimate_ref(f, f.local_ty(op_local(t["args"][0])))
               and strip_generics(callee_name(t)).startswith("platform::")]
-    est = {_root_local(f, tr, t["args"][0]) for b, t in dcalls} or cands
+    est = {_root_place(f, t["args"][0]) for b, t in dcalls} or cands
     est = {e for e in est if e is not None}
     R.count("downsize_calls[%s]" % cfg, max(len(dcalls), 1 if est else 0) * (2 if not dcalls and est else 1))
     if not est:
         R.violate("%s:estimate-not-found" % f.path, "cannot identify the send-buffer estimate variable", f.path, config=cfg)
         return
     for E in sorted(est):
-        defs = [d for d in f.defs().get(E, []) if not f.is_cleanup(d[0])]
+        if E[1]:
+            defs = [(b, si, st) for b in f.live_blocks() for si, st in enumerate(f.stmts(b)) if st["s"] == "assign" and st["lhs"]["l"] == E[0] and "*" not in st["lhs"].get("p", []) and fpath(st["lhs"]) == E[1]]
+            if defs:
+                R.violate("%s:estimate-written-directly" % f.path, "the estimate (field %s of `%s`) is assigned directly at %d sites in send (expected: initialisation only)" % (E[1], f.lname(E[0]), len(defs)), f.path, f.loc(defs[-1][0]), config=cfg)
+            else:
+                R.ok("estimate (field %s of `%s`) is only initialised with the struct it lives in" % (E[1], f.lname(E[0])), f.loc(0), cfg)
+            continue
+        defs = [d for d in f.defs().get(E[0], []) if not f.is_cleanup(d[0])]
         if len(defs) != 1:
-            R.violate("%s:estimate-written-directly" % f.path, "the estimate `%s` is assigned at %d sites in send (expected: initialisation only)" % (f.lname(E), len(defs)), f.path, f.loc(defs[-1][0]) if defs else None, config=cfg)
+            R.violate("%s:estimate-written-directly" % f.path, "the estimate `%s` is assigned at %d sites in send (expected: initialisation only)" % (f.lname(E[0]), len(defs)), f.path, f.loc(defs[-1][0]) if defs else None, config=cfg)
         else:
-            R.ok("estimate `%s` has a single direct definition (its initialisation)" % f.lname(E), f.loc(defs[0][0]), cfg)
+            R.ok("estimate `%s` has a single direct definition (its initialisation)" % f.lname(E[0]), f.loc(defs[0][0]), cfg)
     bodies = []     # (function, predicate "this deref-store writes the estimate")
     for b, t in dcalls:
         g = F.fns.get(t.get("resolved") or t.get("callee")) or getattr(F, "all_fns", {}).get(t.get("resolved") or t.get("callee"))
@@ -682,7 +803,7 @@ def rule_retry_shrink(ctx, cfg, F):
             bodies.append((g, lambda st, g=g: st["lhs"]["l"] == 1 and (st["lhs"].get("p") or [None])[0] == "*", lambda op, g=g: any(r.kind == "param" and r.id == 2 for r in Tracer(g).roots_of_operand(op))))
     # stores through a borrow of E in send itself (helper inlined)
     bodies.append((f, lambda st: (st["lhs"].get("p") or [None])[0] == "*" and f.local_ty(st["lhs"]["l"]).startswith("&mut") and
-                   (_ref_target(f, st["lhs"]["l"]) in est or _root_local(f, tr, {"k": "cp", "pl": {"l": st["lhs"]["l"]}}) in est), lambda op: True))
+                   ((_ref_target(f, st["lhs"]["l"]), ()) in est or _root_place(f, {"k": "cp", "pl": {"l": st["lhs"]["l"]}}) in est), lambda op: True))
     n_stores = 0
     ok = True
     for g, is_store, is_sent in bodies:
@@ -844,6 +965,8 @@ def rule_frag_route(ctx, cfg, F):
     tr = Tracer(f)
     funame = strip_generics(fu.path)
     n = 0
+    # the follow-up transmitter's descriptor parameter (the first one, unless a refactor reordered the signature)
+    fu_fd = next((i for i in range(1, fu.argc + 1) if fu.local_ty(i) in ("i32", "std::os::fd::RawFd", "libc::c_int")), 1)
     anchors = pair_anchors(F, f)
     R.count("channel_calls[%s]" % cfg, len(anchors[0]) + len(anchors[1]))
     pair = None
@@ -851,7 +974,7 @@ def rule_frag_route(ctx, cfg, F):
         if strip_generics(callee_name(t)) != funame:
             continue
         n += 1
-        org = endpoint_origin(F, f, tr, t["args"][0], anchors)
+        org = endpoint_origin(F, f, tr, t["args"][fu_fd - 1], anchors)
         good = len(org) == 1 and next(iter(org))[0][0] in ("chan", "sp") and next(iter(org))[1] == 0
         if good:
             pair = next(iter(org))[0]
@@ -863,7 +986,7 @@ def rule_frag_route(ctx, cfg, F):
     # direct libc::send inside the follow-up transmitter uses its parameter
     trf = Tracer(fu)
     for b, t in fu.calls_to("libc::send"):
-        if any(r.kind == "param" and r.id == 1 for r in trf.roots_of_operand(t["args"][0])):
+        if any(r.kind == "param" and r.id == fu_fd for r in trf.roots_of_operand(t["args"][0])):
             R.ok("libc::send in %s writes to its descriptor parameter" % fu.path, fu.loc(b), cfg)
         else:
             R.violate("%s:send-fd-not-parameter" % fu.path, "libc::send does not use the function's descriptor parameter", fu.path, fu.loc(b), config=cfg)
@@ -944,15 +1067,17 @@ def rule_dedicated_last(ctx, cfg, F):
             return (_root_local(g, trg, op), ())
         for b, t in pops:
             Vk = vec_id(t["args"][0])
-            V = Vk[0] if not Vk[1] else None
+            # the list may travel in a context struct from the phase that fills it to the phase that pops (moves, struct literals, Ok(..)?)
+            Vcls = _place_class(g, {Vk})
+            V = next((l for (l, p_) in sorted(Vcls) if not p_), None)
             pushes = [pb for pb, pt in g.calls() if strip_generics(callee_name(pt)) in ("std::vec::Vec::push", "std::vec::Vec::extend_from_slice", "std::vec::Vec::extend", "std::iter::Extend::extend")
-                      and vec_id(pt["args"][0]) == Vk]
+                      and vec_id(pt["args"][0]) in Vcls]
             if not pushes and V is not None:
                 # the list was created whole from the control-message data (`slice.to_vec()`): its creation is the one append
                 pushes = [r.block for r in trg.roots(V) if r.kind == "call" and r.block is not None and (
                     strip_generics(r.id).endswith("::to_vec") or strip_generics(r.id).endswith("::collect") or strip_generics(r.id) in ("std::borrow::ToOwned::to_owned", "std::convert::From::from"))]
             disturb = [pb for pb, pt in g.calls() if strip_generics(callee_name(pt)) in ("std::vec::Vec::insert", "std::vec::Vec::remove", "std::vec::Vec::swap_remove", "core::slice::reverse", "core::slice::swap", "std::vec::Vec::drain", "std::vec::Vec::truncate")
-                       and vec_id(pt["args"][0]) == Vk]
+                       and vec_id(pt["args"][0]) in Vcls]
             in_loop = any(b in g.natural_loop(h) and any(p in g.natural_loop(h) for p in pushes) for h in g.loop_headers())
             after = all(b in g.reachable(g.term(p)["to"]) for p in pushes)
             if pushes and not disturb and not in_loop and after:
